@@ -119,14 +119,12 @@ func emitWalk(run *vgen.Run, w *netgen.World, p *netgen.Path, s *netgen.Sent) {
 		term := vgen.App("SegID.CWalk", vgen.B(sl.ConsDir), vgen.N(uint64(sl.B0)), vgen.NList(sg),
 			vgen.N(uint64(sl.SegID0)), vgen.List(hs), vgen.List(impl))
 		kind := "full"
-		first, last := sl.Hops[0], sl.Hops[len(sl.Hops)-1]
 		switch {
 		case sl.Peer:
 			kind = "peering"
 		case len(sl.Hops) < len(sl.Sigmas):
 			kind = "shortcut"
 		}
-		_, _ = first, last
 		run.Tally(fmt.Sprintf("walk:consdir=%v,%s", sl.ConsDir, kind))
 		if multi {
 			run.Tally("walk:several-routers-in-an-AS")
